@@ -68,6 +68,8 @@ func checkC20(c *Ctx) {
 	}, "write-mutex/ack-queue")
 	// the callbacks a client runs are those registered through it
 	c.providerWiring(false, true)
+	// messages delivered just before the server closes the connection are still read from the ring
+	c.drainBeforeEOF()
 }
 
 func (c *Ctx) clientConnect(fn *ssa.Function) {
